@@ -60,3 +60,72 @@ Example refuted_sort_trailing_dot :
      PV (mkStream [VDoc [("a", VDoc [("x", VInt 2)])]; VDoc [("a", VDoc [("x", VInt 1)])]] true []),
      Some false, 128).
 Proof. vm_compute. reflexivity. Qed.
+
+(* 5. a $project field computed from an expression that Python reads as false ("", [], {}):
+   the library decides inclusion / exclusion from the truth value of every field value, the
+   computed ones too.  After an included field the pipeline is rejected ("Bad projection
+   specification"); on its own the stage runs in exclusion mode and the answer loses _id.
+   The statement (and a server) computes the field.  Found while proving the $project stage
+   lemma with computed fields.  Now bit 512 = F-PROJECT-FALSY-COMPUTED. *)
+Definition r_docs5 : list value :=
+  [VDoc [("a", VInt 1); ("_id", VInt 7); ("b", VStr "x")]; VDoc [("b", VInt 2)]].
+
+Example refuted_project_falsy_after_flag :
+  verdict [] r_docs5 (VArr [VDoc [("$project", VDoc [("a", VInt 1); ("x", VStr "")])]])
+  = (Err EOpFail,
+     PV (mkStream [VDoc [("_id", VInt 7); ("a", VInt 1); ("x", VStr "")]; VDoc [("x", VStr "")]] true []),
+     Some false, 512).
+Proof. vm_compute. reflexivity. Qed.
+
+Example refuted_project_falsy_array_after_flag :
+  verdict [] r_docs5 (VArr [VDoc [("$project", VDoc [("a", VInt 1); ("x", VArr [])])]])
+  = (Err EOpFail,
+     PV (mkStream [VDoc [("_id", VInt 7); ("a", VInt 1); ("x", VArr [])]; VDoc [("x", VArr [])]] true []),
+     Some false, 512).
+Proof. vm_compute. reflexivity. Qed.
+
+Example refuted_project_falsy_alone :
+  verdict [] r_docs5 (VArr [VDoc [("$project", VDoc [("x", VStr "")])]])
+  = (Ok [VDoc [("x", VStr "")]; VDoc [("x", VStr "")]],
+     PV (mkStream [VDoc [("_id", VInt 7); ("x", VStr "")]; VDoc [("x", VStr "")]] true []),
+     Some false, 512).
+Proof. vm_compute. reflexivity. Qed.
+
+(* 6. $lookup whose local value is a sub-document with a "$" key: the library builds the
+   filter {foreignField: local value} from the raw value, so the sub-document is run as an
+   operator query: {a: {$gt: 1}} joins the foreign documents with b > 1.  The statement (and a
+   server) compares the local value as a value: nothing is joined.  Found while proving the
+   $lookup stage lemma (the specification wraps sub-documents in $eq, the library does not).
+   Now bit 1024 = F-LOOKUP-OPERATOR-VALUE. *)
+Definition r_db6 : dbmap := [("f", [VDoc [("_id", VInt 1); ("b", VInt 5)]; VDoc [("_id", VInt 2); ("b", VInt 0)]])].
+Definition r_lookup6 : value :=
+  VArr [VDoc [("$lookup", VDoc [("from", VStr "f"); ("localField", VStr "a"); ("foreignField", VStr "b");
+                                ("as", VStr "j")])]].
+
+Example refuted_lookup_operator_value :
+  verdict r_db6 [VDoc [("_id", VInt 1); ("a", VDoc [("$gt", VInt 1)])]] r_lookup6
+  = (Ok [VDoc [("_id", VInt 1); ("a", VDoc [("$gt", VInt 1)]); ("j", VArr [VDoc [("_id", VInt 1); ("b", VInt 5)]])]],
+     PV (mkStream [VDoc [("_id", VInt 1); ("a", VDoc [("$gt", VInt 1)]); ("j", VArr [])]] true []),
+     Some false, 1024).
+Proof. vm_compute. reflexivity. Qed.
+
+(* 7. $group by a field holding ObjectIds: the library sorts the documents by key before
+   grouping them (itertools.groupby), and mongomock's own ObjectId (the one used when the bson
+   package is absent, which is what the model describes) defines no ordering: as soon as two
+   keys are ObjectIds the stage raises TypeError, even for equal ids.  The statement groups
+   them.  Found while probing the $group stage lemma with keys other than null.
+   Now bit 2048 = F-GROUP-KEY-OBJECTID. *)
+Definition r_group7 : value :=
+  VArr [VDoc [("$group", VDoc [("_id", VStr "$k"); ("n", VDoc [("$sum", VInt 1)])])]].
+
+Example refuted_group_objectid_keys :
+  verdict [] [VDoc [("k", VOid 1)]; VDoc [("k", VOid 2)]] r_group7
+  = (Err EType,
+     PV (mkStream [VDoc [("_id", VOid 1); ("n", VInt 1)]; VDoc [("_id", VOid 2); ("n", VInt 1)]] false []),
+     Some false, 2048).
+Proof. vm_compute. reflexivity. Qed.
+
+Example refuted_group_objectid_same_key :
+  verdict [] [VDoc [("k", VOid 1)]; VDoc [("k", VOid 1)]] r_group7
+  = (Err EType, PV (mkStream [VDoc [("_id", VOid 1); ("n", VInt 2)]] true []), Some false, 2048).
+Proof. vm_compute. reflexivity. Qed.
